@@ -16,6 +16,9 @@ def gen_values(rng, n, style=None):
     if style == 'bigint':
         # integer samples above 2**53 (epoch nanoseconds, 64-bit counters): exact as Python ints, lossy as floats
         return [1700000000000000000 + rng.randint(-400, 400) for _ in range(n)]
+    if style == 'nano':
+        # nano-scale physical quantities: consecutive values differ by 1e-10 or less (but exactly representable decisions)
+        return [rng.randint(-8, 8) * 1e-10 for _ in range(n)]
     if style == 'lattice':
         return [LATTICE[rng.randrange(len(LATTICE))] for _ in range(n)]
     if style == 'ints':
